@@ -295,6 +295,55 @@ pub fn c27_case(src: &mut Src, obs: &mut Obs) -> CaseResult {
             }
         }
     }
+    // A second look after the tree changed at or below the introspected node: what is returned is
+    // the description of the tree as it is now, not one remembered from before.
+    let mut relooked = false;
+    if src.chance(150) {
+        let p = PATHS[src.below(PATHS.len())];
+        let i = src.below(ifs.len());
+        let present = regs.iter().any(|r| r.0 == p && r.1 == i);
+        let mut change = String::new();
+        if !present {
+            sv.register(&ifs[i], p)?;
+            regs.push((p, i));
+            change = format!("then {} was added at {p}", ifs[i].rs);
+        } else if regs.iter().filter(|r| r.0 == p).count() > 1 || om_at == Some(p) {
+            // (removing one of several interfaces keeps the node whatever its children)
+            let (c, p2, f) = (sv.conn.clone(), p.to_string(), ifs[i].remove);
+            sv.run_setup("removing an interface", async move {
+                let _ = f(c.object_server(), p2).await;
+            })?;
+            regs.retain(|r| !(r.0 == p && r.1 == i));
+            change = format!("then {} was removed from {p}", ifs[i].rs);
+        }
+        if !change.is_empty() {
+            sv.settle();
+            let mut nodes2: BTreeSet<String> = BTreeSet::new();
+            nodes2.insert("/".into());
+            for (p, _) in regs.iter().map(|r| (r.0, r.1)).chain(om_at.map(|p| (p, 0))) {
+                let mut cur = String::new();
+                for part in p.split('/').filter(|s| !s.is_empty()) {
+                    cur.push('/');
+                    cur.push_str(part);
+                    nodes2.insert(cur.clone());
+                }
+            }
+            let c2 = sv.peer.call(&root, Some(INTRO), "Introspect", vec![]);
+            let r2 = call_and_settle(&mut sv, &c2)?;
+            let xml2 = match (r2.mtype, r2.body.as_slice()) {
+                (msg::T_RETURN, [RVal::S(s)]) => s.clone(),
+                _ => return Err(Failure::new(format!("the second Introspect answered {}; {setup}, {change}", show_msg(&r2)))),
+            };
+            let tree2 = xml::parse(&xml2).map_err(|e| Failure::new(format!("the second introspection XML is not well-formed: {e}; {setup}, {change}")))?;
+            if let Err(e) = check_node(&tree2, &root, &regs, om_at, &nodes2, 0) {
+                return Err(Failure::new(format!("{e}; {setup}, {change}, then {root} was introspected again; XML: {}", short(&xml2))));
+            }
+            relooked = true;
+        }
+    }
+    if relooked {
+        obs.label("introspected-again-after-a-change");
+    }
     obs.label(if root == "/" { "root" } else { "inner-node" });
     let generated_here = regs.iter().filter(|r| r.0 == root).count();
     if generated_here > 0 {
